@@ -118,6 +118,19 @@ pub fn run(args: &Args) -> Report {
             }
         }
     }
+    // a bridged end (MuxStream::into_copy_bidirectional, the path the penguin binaries use) whose local side has far more
+    // than one frame's worth of data ready at once: still one unit of credit per frame on the wire
+    for (a, b) in [((2u32, 1u32), (1u32, 1u32)), ((1, 1), (3, 2))] {
+        let streams = vec![StreamSpec {
+            tag: 1,
+            opener: 0,
+            opener_plan: EndPlan::Bridged(262_144, vec![Op::W(150_000), Op::Shutdown, Op::ReadToEof(4096)]),
+            acceptor_plan: EndPlan::Seq(vec![Op::ReadToEof(65_536), Op::W(2), Op::Shutdown]),
+        }];
+        let cfg = XferCfg { a, b, cap: 0, streams, stream_buffer: 4, one_byte_frames: false, dgram_pingpong: 0, dgram_buffer: 4, drop_mux_when_writers_done: None, horizon: 8000 };
+        let label = format!("bridged end with 150 kB ready at once | {}", cfg.describe());
+        cases.push(Case { try_unbounded: false, max_k: 1, label, exec: Box::new(move |r| xfer::exec(&cfg, &or, r)) });
+    }
     // the smallest drivers: every interleaving modulo commutation of the two endpoints' steps (sleep sets)
     for (a, b) in if thorough { vec![((1u32, 1u32), (1u32, 1u32)), ((2, 2), (1, 1)), ((1, 2), (2, 1))] } else { vec![((1u32, 1u32), (1u32, 1u32)), ((2, 2), (1, 1))] } {
         let streams = vec![StreamSpec {
